@@ -96,6 +96,10 @@ def pack(arr, cont, names=None, row=False):
         return pd.DataFrame(arr.copy(), columns=list(names or NAMES[:c]))
     if cont == "list2":
         return arr.tolist()
+    if cont == "tuple2":
+        return tuple(tuple(x) for x in arr.tolist())
+    if cont == "list.of-nd":
+        return [x.copy() for x in arr]
     if cont == "list":
         if row and r == 1:
             return arr[0].tolist()
@@ -109,17 +113,107 @@ def pack(arr, cont, names=None, row=False):
         return flat.copy()
     if cont == "Series":
         return pd.Series(flat.copy())
-    if cont == "scalar":
+    if cont == "tuple":
+        return tuple(flat.tolist())
+    if cont in ("scalar", "npscalar", "nd0"):
         if r != 1 or c != 1:
             raise HarnessError("scalar container needs a 1x1 input")
-        return float(arr[0, 0])
+        # python number / numpy scalar / 0-dimensional ndarray
+        return float(arr[0, 0]) if cont == "scalar" else np.float64(arr[0, 0]) if cont == "npscalar" else np.array(arr[0, 0])
     raise HarnessError("unknown container %r" % (cont,))
+
+
+# round 4: every SHAPE in which label(s) can arrive.  "<container>.<layout>"; the number of observations is the length of
+# ``vals`` (0 = an empty container of that layout)
+def y_shape(form, vals):
+    a = np.array([int(v) for v in vals], dtype=np.int64)
+    k = len(a)
+    if form == "list.flat":
+        return a.tolist()
+    if form == "tuple.flat":
+        return tuple(a.tolist())
+    if form == "nd.flat":
+        return a.copy()
+    if form == "Series.flat":
+        return pd.Series(a.copy())
+    if form == "list.col":
+        return a.reshape(k, 1).tolist()
+    if form == "nd.col":
+        return a.reshape(k, 1)
+    if form == "DataFrame.col":
+        return pd.DataFrame({"y": a.copy()})
+    if form == "list.row":
+        return [a.tolist()]
+    if form == "tuple.row":
+        return (tuple(a.tolist()),)
+    if form == "list.of-nd":
+        return [a.copy()]
+    if form == "nd.row":
+        return a.reshape(1, k)
+    if form == "DataFrame.row":
+        return pd.DataFrame(a.reshape(1, k), columns=["y%d" % i for i in range(k)])
+    if form == "nd.3d-row":
+        return a.reshape(1, 1, k)
+    if form == "nd.3d-col":
+        return a.reshape(1, k, 1)
+    if form in ("nd.2x2", "list.2x2", "DataFrame.2x2"):
+        if k != 4:
+            raise HarnessError("a 2x2 label container needs four values")
+        sq = a.reshape(2, 2)
+        return sq if form == "nd.2x2" else sq.tolist() if form == "list.2x2" else pd.DataFrame(sq, columns=["y0", "y1"])
+    raise HarnessError("unknown label layout %r" % (form,))
+
+
+_ROW_FORMS = ("list.row", "tuple.row", "list.of-nd", "nd.row", "DataFrame.row")
+_FLAT_FORMS = ("list.flat", "tuple.flat", "nd.flat", "Series.flat")
+_COL_FORMS = ("list.col", "nd.col", "DataFrame.col")
+# (layout, number of observations): every layout with two observations; three observations and none at all in the
+# layouts that differ in what len() / shape[0] / shape[1] / size say about them; four observations as a 2 x 2 block
+Y_SHAPES = (
+    [(f, 2) for f in _FLAT_FORMS + _COL_FORMS + _ROW_FORMS + ("nd.3d-row", "nd.3d-col")]
+    + [(f, 3) for f in ("nd.flat", "Series.flat", "nd.col", "nd.row", "list.row", "DataFrame.row")]
+    + [(f, 4) for f in ("nd.2x2", "list.2x2", "DataFrame.2x2")]
+    + [(f, 0) for f in ("list.flat", "tuple.flat", "nd.flat", "Series.flat", "nd.row", "nd.col", "list.row", "DataFrame.row", "DataFrame.col")]
+)
+_YT_VALS, _YP_VALS = [1, 0, 1, 0], [0, 0, 1, 1]
+
+
+def y_shape_faults():
+    """[(kind, "<layout>/<k>")]: one of the two label arguments (both, for two observations) carries k != 1 observations"""
+    out = []
+    for form, k in Y_SHAPES:
+        c = "%s/%d" % (form, k)
+        out.append(("y_true_multi" if k else "y_true_empty", c))
+        out.append(("y_pred_multi" if k else "y_pred_empty", c))
+        if k == 2:
+            out.append(("y_both_multi", c))
+    return out
+
+
+def y_fault_args(kind, cont):
+    """(y_true, y_pred) of a malformed label call; the argument that is not malformed is the python number 1"""
+    if "/" in cont:
+        form, k = cont.split("/")
+        mk = lambda vals: y_shape(form, vals[: int(k)])  # noqa: E731
+    else:
+        mk = lambda vals: pack_y(vals[:2], cont)  # noqa: E731
+    yt = mk(_YT_VALS) if kind.startswith(("y_true", "y_both")) else (1 if "/" in cont else pack_y([1], cont))
+    yp = mk(_YP_VALS) if kind.startswith(("y_pred", "y_both")) else (1 if "/" in cont else pack_y([1], cont))
+    return yt, yp
 
 
 def pack_y(vals, cont):
     """label observation(s) ``vals`` (list of ints) in the requested container."""
     if cont == "scalar":
         return int(vals[0])
+    if cont == "npscalar":
+        return np.int64(vals[0])
+    if cont == "nd0":
+        return np.array(int(vals[0]))
+    if cont == "tuple":
+        return tuple(int(v) for v in vals)
+    if cont == "list2":
+        return [[int(v)] for v in vals]
     if cont in ("list", "list1"):
         return [int(v) for v in vals]
     if cont == "nd1":
@@ -218,6 +312,19 @@ class Adapter:
     def eq_containers(self, sym):
         raise NotImplementedError
 
+    # -- round 4: inject-shape-* / equivx-* ----------------------------------------
+    def shape_faults(self, est, det):
+        """[(kind, container)] of the inject-shape-* family: the malformed calls in the layouts (row / column / flat /
+        nested / empty, tuples, 1-D containers) that ``faults`` does not use.  Empty = the adapter has no such family."""
+        return []
+
+    shape_neighbours = INJ  # containers of the two valid neighbours of the malformed call in inject-shape-*
+
+    def eqx_containers(self, sym):
+        """containers of the equivx-* family: the canonical one and the one-observation containers ``eq_containers``
+        does not use (numpy scalar, 0-dimensional ndarray, tuple, nested list, list of arrays)"""
+        return []
+
 
 class UniStream(Adapter):
     """ADWIN, CUSUM, PageHinkley: update(X) with one value."""
@@ -243,9 +350,28 @@ class UniStream(Adapter):
             out.append(("renamed", "DataFrame"))
         return out
 
+    def shape_faults(self, est, det):
+        out = [("multicol", c) for c in ("nd1", "Series", "tuple")]  # several values in a 1-D container
+        out += [("two_values", c) for c in ("list", "ndarray", "DataFrame", "nd1", "Series", "tuple")]
+        out += [("three_rows", c) for c in INJ + ("tuple2", "list.of-nd")]
+        out += [("two_rows", c) for c in ("tuple2", "list.of-nd")]
+        out += [("no_rows", c) for c in ("ndarray", "DataFrame")]
+        return out
+
+    shape_neighbours = ("ndarray", "scalar", "nd0")
+
+    def eqx_containers(self, sym):
+        return ["ndarray", "npscalar", "nd0", "tuple", "list2", "list.of-nd"]
+
     def fault(self, det, kind, cont, p):
         if kind == "two_rows":
             X = pack([[1.0], [2.0]], cont, row=True)
+        elif kind == "three_rows":
+            X = pack([[1.0], [2.0], [3.0]], cont, row=True)
+        elif kind == "no_rows":
+            X = pack(np.zeros((0, 1)), cont, row=True)
+        elif kind == "two_values":
+            X = pack([[1.0, 2.0]], cont, row=True)
         elif kind == "two_rows_other_width":
             X = pack([[1.0, 2.0, 3.0], [4.0, 5.0, 6.0]], cont, row=True)
         elif kind == "multicol":
@@ -288,13 +414,20 @@ class YStream(Adapter):
     def faults(self, est, det):
         return [(k, c) for k in ("y_true_multi", "y_pred_multi", "y_both_multi") for c in INJ]
 
+    def shape_faults(self, est, det):
+        return y_shape_faults()
+
+    shape_neighbours = ("ndarray", "scalar", "nd0")
+
     def fault(self, det, kind, cont, p):
-        yt = pack_y([1, 0] if kind in ("y_true_multi", "y_both_multi") else [1], cont)
-        yp = pack_y([0, 0] if kind in ("y_pred_multi", "y_both_multi") else [1], cont)
+        yt, yp = y_fault_args(kind, cont)
         det.update(y_true=yt, y_pred=yp)
 
     def eq_containers(self, sym):
         return ["ndarray", "scalar", "list", "nd1", "Series", "DataFrame"]
+
+    def eqx_containers(self, sym):
+        return ["ndarray", "npscalar", "nd0", "tuple", "list2"]
 
 
 class MvStream(Adapter):
@@ -327,7 +460,28 @@ class MvStream(Adapter):
             out.append(("duplicated", "DataFrame"))
         return out
 
+    def shape_faults(self, est, det):
+        out = [("three_rows", c) for c in INJ + ("tuple2", "list.of-nd")]
+        out += [("two_rows", c) for c in ("tuple2", "list.of-nd")]
+        out += [("no_rows", c) for c in ("ndarray", "DataFrame")]
+        if est["width"] is not None:
+            # another number of values in a 1-D container; the two rows of a malformed call given flat (twice the width)
+            out += [("wrong_width", c) for c in ("nd1", "Series", "tuple")]
+            out += [("two_rows_flat", c) for c in ("list", "ndarray", "DataFrame", "nd1", "Series", "tuple")]
+            out += [("one_value", c) for c in ("scalar", "nd0", "list", "ndarray", "DataFrame", "nd1", "Series", "tuple")]
+        return out
+
+    shape_neighbours = ("ndarray", "tuple", "list2")
+
+    def eqx_containers(self, sym):
+        return ["ndarray", "tuple", "list2", "tuple2", "list.of-nd"]
+
     def fault(self, det, kind, cont, p):
+        if kind in ("three_rows", "no_rows", "two_rows_flat", "one_value"):
+            arr = {"three_rows": [[1.0, 2.0], [3.0, 4.0], [5.0, 6.0]], "no_rows": np.zeros((0, 2)),
+                   "two_rows_flat": [[1.0, 2.0, 3.0, 4.0]], "one_value": [[1.0]]}[kind]
+            det.update(pack(arr, cont, row=True))
+            return
         if kind == "reordered":
             det.update(pack([[1.0, 2.0]], cont, names=[NAMES[1], NAMES[0]], row=True))
             return
@@ -408,12 +562,40 @@ class Batch(Adapter):
                     out.append(("duplicated@" + m, "DataFrame"))
         return out
 
+    def shape_faults(self, est, det):
+        out = []
+        for m in self.METHODS:
+            # a single value, bare or in a 1-D container (batch convention: 1-D = one column): one observation
+            out += [("one_value@" + m, c) for c in ("scalar", "nd0", "nd1", "Series", "list1", "tuple")]
+            out += [("one_row@" + m, c) for c in ("tuple2", "list.of-nd")]
+            out += [("no_rows@" + m, c) for c in ("ndarray", "DataFrame")]
+            if self.univariate:
+                # four observations of a univariate detector given as ONE ROW: one observation of four features
+                out += [("row_of_values@" + m, c) for c in ("ndarray", "list2", "DataFrame", "tuple2", "list.of-nd")]
+            elif est["width"] is not None:
+                # a 1-D container is one column: another width than the two established
+                out += [("flat_column@" + m, c) for c in ("nd1", "Series", "list1", "tuple")]
+        return out
+
+    shape_neighbours = ("ndarray", "tuple2", "list.of-nd")
+
+    def eqx_containers(self, sym):
+        return ["ndarray", "tuple2", "list.of-nd"] + (["tuple"] if self.univariate else [])
+
     def fault(self, det, kind, cont, p):
         kind, method = kind.split("@")
         w = self.width
         full = np.arange(4 * w, dtype=float).reshape(4, w)
         wide = np.arange(12, dtype=float).reshape(4, 3)
-        if kind == "one_row":
+        if kind == "one_value":
+            X = pack([[1.0]], cont)
+        elif kind == "no_rows":
+            X = pack(np.zeros((0, w)), cont)
+        elif kind == "row_of_values":
+            X = pack([[0.0, 1.0, 2.0, 3.0]], cont)
+        elif kind == "flat_column":
+            X = pack([[0.0], [1.0], [2.0], [3.0]], cont)
+        elif kind == "one_row":
             X = pack(full[:1], "list2" if cont == "list" else cont)
         elif kind == "one_row_other_width":
             X = pack(wide[:1], "list2" if cont == "list" else cont)
@@ -624,6 +806,10 @@ class EnsStream(EnsMixin, Adapter):
             out += [(k, c) for k in ("y_true_multi", "y_pred_multi", "y_both_multi") for c in INJ]
         return out
 
+    def shape_faults(self, est, det):
+        # the ensemble validates the labels itself before any member sees them (and the members once more)
+        return y_shape_faults() if self.has(det, "y") else []
+
     def fault(self, det, kind, cont, p):
         w = self.width
         one = np.arange(1.0, w + 1.0).reshape(1, w)
@@ -639,10 +825,9 @@ class EnsStream(EnsMixin, Adapter):
             X = pack(two, cont, names=OTHER[:w], row=True)
         elif kind == "renamed":
             X = pack(one, cont, names=OTHER[:w], row=True)
-        elif kind in ("y_true_multi", "y_pred_multi", "y_both_multi"):
+        elif kind.startswith("y_"):
             X = pack(self.arr(0), "ndarray", row=True)
-            yt = pack_y([1, 0] if kind in ("y_true_multi", "y_both_multi") else [1], cont)
-            yp = pack_y([0, 0] if kind in ("y_pred_multi", "y_both_multi") else [1], cont)
+            yt, yp = y_fault_args(kind, cont)
         else:
             raise HarnessError(kind)
         det.update(X, yt, yp)
